@@ -9,26 +9,28 @@
    cycle.  None of the laws calls the modelled votes, filters or actions. *)
 From V Require Import C11.Model.
 From stdpp Require Import gmap.
-From Coq Require Import ZArith List.
+From Coq Require Import ZArith QArith List.
 From V Require Import Base.Codec Base.Res Base.ResCodec Sched.LedgerModel Sched.StmtModel Sched.LedgerCodec
                       Sched.CycleCodec C04.Model C04.Codec.
 Import ListNotations.
 Open Scope Z_scope.
 
-Record cobs := mkObs { o_id : positive; o_status : status; o_ready : Z; o_qalloc : res }.
+Record cobs := mkObs { o_id : positive; o_status : status; o_ready : Z; o_qalloc : res;
+                       o_jalloc : res }.   (* what the candidate's JOB holds at the vote (recorder ledger) *)
 Record evrec := mkEv {
   ev_victim : positive; ev_action : Z; ev_preemptor : positive; ev_node : option positive;
   ev_pipnode : option positive;
   ev_jp_count : Z; ev_jp_min : Z;     (* the job's occupied count / minMember when JobPipelined was asked; -1: not asked *)
   ev_order : list positive; ev_obs : list cobs;
-  ev_qorder : list positive }.        (* the candidates in the pop order of the plugins' victims queue *)
+  ev_qorder : list positive;
+  ev_palloc : res }.                   (* what the preemptor's job holds at the vote *)        (* the candidates in the pop order of the plugins' victims queue *)
 
 Definition dObs : dec cobs :=
-  let* i := dPos in let* s := dStatus in let* r := dZ in let* q := dRes in ret (mkObs i s r q).
+  let* i := dPos in let* s := dStatus in let* r := dZ in let* q := dRes in let* ja := dRes in ret (mkObs i s r q ja).
 Definition dEvrec : dec evrec :=
   let* v := dPos in let* a := dZ in let* p := dPos in let* n := dNodeRef in let* pn := dNodeRef in
   let* jc := dZ in let* jm := dZ in
-  let* o := dListS dPos in let* ob := dListS dObs in let* qo := dListS dPos in ret (mkEv v a p n pn jc jm o ob qo).
+  let* o := dListS dPos in let* ob := dListS dObs in let* qo := dListS dPos in let* pa := dRes in ret (mkEv v a p n pn jc jm o ob qo pa).
 
 Record law_in := mkLawIn { li_spec : spec; li_lims : list qlim_spec; li_clims : list clim_spec; li_evs : list evrec;
                            li_final : list (positive * status * option positive) }.
@@ -191,6 +193,30 @@ Fixpoint cap_sim (e : evrec) (p : task_spec) (al : gmap positive res) (order : l
 Definition cap_reclaimer_known (p : task_spec) : bool :=
   match queue_of_task p with Some q => bool_decide (is_Some (clim_of q)) | None => false end.
 
+(* drf: the cluster total from the Node objects; per-call copy of each job's allocation, reduced by every candidate
+   of the job that is looked at *)
+Definition spec_total : res :=
+  fold_left (fun acc n => if ns_has n then add acc (mk_alloc (ns_cpu n) (ns_mem n) (ns_pods n) (ns_gpu n)) else acc)
+            (sp_nodes sp) empty_res.
+Fixpoint drf_sim (ls : Q) (al : gmap positive res) (obs : list cobs) : list positive :=
+  match obs with
+  | [] => []
+  | o :: r =>
+    match spec_task (o_id o) with
+    | None => drf_sim ls al r
+    | Some t =>
+      match spec_job (ts_job t) with
+      | None => drf_sim ls al r
+      | Some _ =>
+        let left := sub (default (o_jalloc o) (al !! ts_job t)) (req_of t) in
+        if drf_lets_go ls (dom_share (sp_eps sp) left spec_total)
+        then o_id o :: drf_sim ls (<[ts_job t := left]> al) r
+        else drf_sim ls (<[ts_job t := left]> al) r
+      end
+    end
+  end.
+Definition drf_ls_obs (e : evrec) (p : task_spec) : Q := dom_share (sp_eps sp) (add (ev_palloc e) (req_of p)) spec_total.
+
 (* the candidates a configured voter lets go *)
 Definition lets_go (e : evrec) (p : task_spec) (k : pkind) : list positive :=
   match k with
@@ -199,12 +225,13 @@ Definition lets_go (e : evrec) (p : task_spec) (k : pkind) : list positive :=
   | KConf => map o_id (filter (fun o => match spec_task (o_id o) with Some v => conf_lets_go v | None => false end) (ev_obs e))
   | KProp => prop_sim ∅ (ev_obs e)
   | KCap => if cap_reclaimer_known p then cap_sim e p ∅ (ev_qorder e) else []
+  | KDrf => match spec_job (ts_job p) with Some _ => drf_sim (drf_ls_obs e p) ∅ (ev_obs e) | None => [] end
   end.
 
 (* does the plugin vote in this action *)
 Definition votes_in (action : Z) (pl : plug) : bool :=
   if action =? 1 then p_pre pl && negb (bool_decide (p_kind pl = KProp)) && negb (bool_decide (p_kind pl = KCap))
-  else p_rec pl && negb (bool_decide (p_kind pl = KPrio)).
+  else p_rec pl && negb (bool_decide (p_kind pl = KPrio)) && negb (bool_decide (p_kind pl = KDrf)).
 
 Definition voters (e : evrec) (t : list plug) : list plug := filter (fun pl => votes_in (ev_action e) pl) t.
 (* the candidates all voters of the tier let go *)
@@ -323,5 +350,23 @@ Definition job_keeps_min (jp : job_spec * Z) : bool :=
   then bool_decide (js_min j <= Z.of_nat (length (filter final_ready mine)))
   else true.
 Definition law_gang_cycle : bool := forallb job_keeps_min (sp_jobs sp).
+
+(* 109: drf on the SET (single-tier layouts in which drf votes for preemption): the pods one attempt evicted from
+   one job, taken TOGETHER, leave that job a dominant share that is not below the preemptor job's (with the
+   preemptor) by more than shareDelta - the eligible-victim clause of the drf vote evaluated on the whole set, on
+   the allocations the harness observed at the vote *)
+Definition drf_set_ok (e : evrec) : bool :=
+  with_pair e (fun v p =>
+    if negb (ev_action e =? 1) then true else
+    match obs_of e (ts_id v) with
+    | Some o =>
+      let gone := omap (fun i => match spec_task i with
+                                 | Some u => if bool_decide (ts_job u = ts_job v) then Some u else None
+                                 | None => None end) (ev_order e) in
+      let left := fold_left (fun a u => sub a (req_of u)) gone (o_jalloc o) in
+      drf_lets_go (drf_ls_obs e p) (dom_share (sp_eps sp) left spec_total)
+    | None => false
+    end).
+Definition law_drf_set : bool := forallb drf_set_ok (li_evs L).
 
 End Laws.
